@@ -366,6 +366,12 @@ class Inotify:
                                     _move_to_path = _path.replace(move_src_path, inotify_event.src_path, 1)
                                     self._wd_for_path[_move_to_path] = moved_wd
                                     self._path_for_wd[moved_wd] = _move_to_path
+                    elif self.is_recursive and inotify_event.is_directory:
+                        # The directory arrived from outside the watched tree, or it was
+                        # renamed before a watch for its creation could be installed:
+                        # there is nothing to re-key, watch it under its new name.
+                        with contextlib.suppress(OSError):
+                            self._add_dir_watch(inotify_event.src_path, self._event_mask, recursive=True)
                     src_path = os.path.join(wd_path, name)
                     inotify_event = InotifyEvent(wd, mask, cookie, name, src_path)
 
